@@ -99,3 +99,21 @@ func lemmaEthIPv6H(e *Ethernet, ip *IPv6, hel uint8, o *Option, u *UDP) (*Ethern
 	e.Data = ip
 	return lemmaFrame(e)
 }
+
+// A priority-tagged frame (802.1Q tag with VLAN id 0 and a priority): the tag the caller supplied must be on the wire.
+func lemmaEthPriorityTag(e *Ethernet, raw *util.Buffer) []byte {
+	e.Data = raw
+	b, _ := e.MarshalBinary()
+	return b
+}
+
+// Decoding any tagged frame (whatever its VLAN id) and encoding the result reproduces the frame.
+func lemmaEthTaggedBytes(b []byte) (err error, b2 []byte) {
+	d := new(Ethernet)
+	err = d.UnmarshalBinary(b)
+	if err != nil {
+		return
+	}
+	b2, _ = d.MarshalBinary()
+	return
+}
